@@ -583,3 +583,40 @@ def fit_recovery_native(c):
     c.ensures("repeatable", all(float(_sc(again.parameters[k])) == float(_sc(res.parameters[k])) for k in names))
     c.ensures("best-fit-hologram-is-the-forward-model", bool(np.allclose(np.sort(np.asarray(res.hologram.values, dtype=float).ravel()),
                                                                           np.sort(_toy_forward(det, Sphere(n=got['n'], r=got['r'], center=(got['x'], 0.0, got['z']))).values.ravel()))))
+
+
+# a model is reusable on OTHER data: optics and noise are read from the data of each call (the contract is C12's; checked here as well)
+from contracts.C12 import noise_precedence as _per_call_optics          # noqa: E402
+contract("C13", "model_reusable_on_other_data", ["holopy.inference.model:Model._find_optics", "holopy.inference.model:Model._find_noise"],
+         patches=_STATS)(_per_call_optics.fn if hasattr(_per_call_optics, 'fn') else _per_call_optics)
+
+
+@contract("C13", "result_serialisation_is_read_only", [RS + "FitResult._serialize_as_dataset", RS + "FitResult.hologram", RS + "FitResult.guess_hologram",
+                                                       RS + "FitResult._calculate_first_time"], native_only=True,
+          bounded="native runs: a result on a 10x10 image with its best-fit and guess holograms computed before serialisation")
+def result_serialisation_is_read_only(c):
+    """preparing a result for saving does not change the result: its best-fit and guess holograms keep their values and metadata,
+    the result still equals the forward model at the reported parameters, and it can be prepared for saving again"""
+    from holopy.inference.result import UncertainValue
+    truth = dict(n=c.real("n", sample=(1.3, 1.7)), r=c.real("r", sample=(0.3, 0.7)), x=c.real("x", sample=(0.8, 2.0)), z=c.real("z", sample=(4, 8)))
+    pri = {k: Uniform(0.5 * v, 1.5 * v, v * 1.01) for k, v in truth.items()}
+    det = data_grid(np.zeros((10, 10)), spacing=0.3, medium_index=1.33, illum_wavelen=0.66, illum_polarization=(1, 0), noise_sd=0.01)
+    data = _toy_forward(det, Sphere(n=truth['n'], r=truth['r'], center=(truth['x'], 0.0, truth['z'])))
+    model = ExactModel(Sphere(n=pri['n'], r=pri['r'], center=(pri['x'], 0.0, pri['z'])), calc_func=_toy_forward, theory=AbstractPointTheory())
+    names = list(model._parameter_names)
+    res = FitResult(data, model, NmpfitStrategy(), 0.5, {'intervals': [UncertainValue(truth[k], 0.01, name=nm)
+                                                                         for k, nm in zip(['n', 'r', 'x', 'z'], names)]})
+    holo, guess = res.hologram, res.guess_hologram
+    snap = (lambda im: (np.array(im.values, copy=True), {k: (np.array(v.values, copy=True) if hasattr(v, 'values') else v) for k, v in im.attrs.items()}))
+    same = (lambda a, b: bool(np.array_equal(a[0], b[0])) and set(a[1]) == set(b[1])
+            and all(np.array_equal(np.asarray(a[1][k], dtype=object), np.asarray(b[1][k], dtype=object)) for k in a[1]))
+    before_h, before_g = snap(holo), snap(guess)
+    o1 = c.outcome(res._serialize_as_dataset)
+    c.ensures("can-be-prepared-for-saving", o1.ok, detail=repr(o1.exc))
+    c.ensures("best-fit-hologram-unchanged", same(snap(res.hologram), before_h),
+              detail="attrs before %r, after %r" % ({k: type(v).__name__ for k, v in before_h[1].items()}, {k: type(v).__name__ for k, v in res.hologram.attrs.items()}))
+    c.ensures("guess-hologram-unchanged", same(snap(res.guess_hologram), before_g))
+    o2 = c.outcome(res._serialize_as_dataset)
+    c.ensures("can-be-prepared-for-saving-again", o2.ok, detail=repr(o2.exc))
+    c.ensures("hologram-still-the-forward-model", bool(np.allclose(res.hologram.values, _toy_forward(det, Sphere(n=truth['n'], r=truth['r'],
+                                                                                                center=(truth['x'], 0.0, truth['z']))).values)))
